@@ -25,6 +25,10 @@ CHECKS = {
    text="spec/tool/Pipeline.tla models the command as phases (Load, Override, Parse, ValidateNs, ValidateVersion, Evolution, Generate, Exit); TLC enumerates every configuration (error location in {manifest, main package, import level 1/2, previous version, import of a previous version, evolution check, duplicate version label, bad -c override} x error kind x enabled targets x output directory state x command x whether importers reference their imports) and checks NoWriteBeforeAllValidated / ErrorImpliesUntouched / ErrorAnywhereImpliesExitNonZero. Every configuration is concretised as a 5-package project and run through the real CLI (exit status; path/sha256/mtime/mode snapshots of every output directory before and after), and the verif-hook trace of every run is validated by TLC against spec/trace/PipelineTrace.tla, whose enabling conditions are the ordering discipline (no WriteFile before Validated, no ValidateNs before the whole closure is parsed, no write before an error exit).",
    note="Quick: every (location, kind, command, output state, uses) with three seeded target sets; thorough: all 700+ configurations. Local directory imports/versions only. A corrupted trace (write moved before validation) is checked to be rejected on every run (binding self-test).",
    tech="TLA+ spec + TLC configuration enumeration; CLI replay with filesystem snapshots; trace validation of hook events against a TLA+ trace spec (POSTCONDITION high-water mark)"),
+ "C12": dict(cat="model_checking", engine="tlc+cli-replay+trace-validation",
+   text="spec/tool/Determinism.tla models diagnostics collected in an arbitrary (map-iteration) order and sorted before printing; TLC explores every collection order and checks OutputIndependentOfCollectionOrder for the sort key transcribed from errorsink.go/warningsink.go (holds) and for a position-only key (refuted), which identifies the packages worth repeating: several diagnostics at one position. Binding: N fresh-process runs (6 quick, 25 thorough) of validate/generate on nine packages built to populate the tool's maps must agree byte for byte in exit status, stdout, diagnostics and sha256 of every generated file for all four targets; regenerating an unchanged package touches no file and its hook trace (validated against PipelineTrace.tla with Exit.second_run) has no wrote=true event; a package edited and regenerated in place must equal its fresh generation.",
+   note="Absolute paths in diagnostics are normalised. Left-over files of a previous model are noted, not asserted. Scenarios are fixed (seed only affects nothing here); runs are fresh processes because Go randomises map iteration per process.",
+   tech="TLA+ model of collect-then-sort checked by TLC; repeated-execution comparison on the real CLI; trace validation of the idempotent second run"),
  "C15": dict(cat="model_checking", engine="tlc-replay+generated-code",
    text="spec/wire/Header.tla describes stream headers symbolically (binary: magic, format version, schema length, schema text; NDJSON: first line) and the reader-open machine; TLC enumerates every header with at most two simultaneous faults (each magic byte altered, four wrong versions, three wrong lengths, seven truncation points, schemas of a protocol differing in one field type, of an unregistered and of a registered previous version, of a foreign protocol, one changed character, non-JSON, NDJSON first-line faults) and checks AcceptOnlyKnown / RejectOnlyBad / NoValueBeforeAccept. Every terminal state is concretised around real schema text and a real stream body of the protocol the schema belongs to, and fed to the four generated readers (C++/Python x binary/NDJSON): a required rejection must raise before any value is delivered.",
    note="One reader protocol with four companion protocols. Acceptance of a registered previous version is asserted for the C++ binary reader only. A JSON-equal but re-serialised own schema is 'either' (C++ compares ordered JSON, Python unordered).",
